@@ -68,6 +68,8 @@ pub async fn verify_consecutive_append_only<TC: Configuration>(
     end_hash: Digest,
     end_epoch: u64,
 ) -> Result<(), AkdError> {
+    verify_disjoint_labels(proof)?;
+
     verify_append_only_hash::<TC>(proof.unchanged_nodes.clone(), start_hash, None).await?;
 
     let mut unchanged_with_inserted_nodes = proof.unchanged_nodes.clone();
@@ -79,6 +81,46 @@ pub async fn verify_consecutive_append_only<TC: Configuration>(
 
     verify_append_only_hash::<TC>(unchanged_with_inserted_nodes, end_hash, Some(end_epoch - 1))
         .await?;
+    Ok(())
+}
+
+/// Checks that the nodes of a proof (unchanged and inserted together) occupy pairwise
+/// disjoint parts of the tree: every label must be well-formed, and no label may be equal to
+/// or a prefix of another one. The tree reconstruction below silently drops or overwrites
+/// nodes which violate this (for example, an inserted leaf placed underneath an "unchanged"
+/// subtree root replaces that entire subtree), which would allow leaves of the start tree to
+/// disappear without the end hash verification noticing.
+fn verify_disjoint_labels(proof: &SingleAppendOnlyProof) -> Result<(), AkdError> {
+    let mut labels = proof
+        .unchanged_nodes
+        .iter()
+        .chain(proof.inserted.iter())
+        .map(|node| node.label)
+        .collect::<Vec<_>>();
+
+    for label in labels.iter() {
+        if label.label_len > 256 || label.get_prefix(label.label_len) != *label {
+            return Err(AkdError::AuditErr(AuditorError::VerifyAuditProof(format!(
+                "The proof contains a malformed node label {label}"
+            ))));
+        }
+    }
+
+    // Order the labels as bit strings, so that a label is directly followed by the labels it
+    // is a prefix of (if any)
+    labels.sort_by(|a, b| {
+        a.label_val
+            .cmp(&b.label_val)
+            .then(a.label_len.cmp(&b.label_len))
+    });
+    for pair in labels.windows(2) {
+        if pair[0].is_prefix_of(&pair[1]) {
+            return Err(AkdError::AuditErr(AuditorError::VerifyAuditProof(format!(
+                "The proof contains overlapping nodes: {} is equal to or a prefix of {}",
+                pair[0], pair[1]
+            ))));
+        }
+    }
     Ok(())
 }
 
